@@ -16,8 +16,8 @@ MUTATIONS = [
     {"id": "m38d", "prop": "C29", "expect": r"who:last_timestamp",
      "edits": [(N + "service.rs", "        let inventory = self.inventory()?;\n\n        self.inventory = gossip::inventory(time, inventory);", "        let inventory = self.inventory()?;\n        self.last_timestamp = time;\n        self.inventory = gossip::inventory(time, inventory);")]},
     # ---- C19
-    {"id": "m33a", "prop": "C19", "expect": r"who:Doc",
-     "edits": [(R + "identity/doc.rs", '#[serde(try_from = "RawDoc")]\npub struct Doc {', 'pub struct Doc {')]},
+    {"id": "m33a", "prop": "C19", "expect": r"who:Delegates",
+     "edits": [(R + "identity/doc.rs", '#[serde(try_from = "Vec<Did>")]\npub struct Delegates', 'pub struct Delegates')]},
     {"id": "m33b", "prop": "C19", "expect": r"dom:Threshold::new",
      "edits": [(R + "identity/doc.rs", "} else if t > delegates.len() {", "} else if t > delegates.len() + 1 {")]},
     {"id": "m33c", "prop": "C19", "expect": r"dom:Delegates::new:len",
@@ -33,4 +33,25 @@ MUTATIONS = [
      "edits": [(R + "storage/refs.rs", "let canonical = self.refs.canonical();\n        let local = repo.id();", "let canonical = Refs::from(BTreeMap::new()).canonical();\n        let local = repo.id();")]},
     {"id": "m34c", "prop": "C20", "expect": r"excl:verify:identity-mismatch",
      "edits": [(R + "storage/refs.rs", "if remote != local {", "if remote != local && self.refs.len() > 100000 {")]},
+    # ---- C12
+    {"id": "m24a", "prop": "C12", "expect": r"dom:upload_pack",
+     "edits": [(N + "worker.rs", "if let Err(e) = self.is_authorized(remote, header.repo) {\n                    return FetchResult::Responder {\n                        rid: Some(header.repo),\n                        result: Err(e),\n                    };\n                }",
+                "if let Err(e) = self.is_authorized(remote, header.repo) {\n                    log::warn!(target: \"worker\", \"unauthorized: {e}\");\n                }")]},
+    {"id": "m25a", "prop": "C12", "expect": r"dom:is_authorized:visible",
+     "edits": [(N + "worker.rs", "if !doc.is_visible_to(&remote.into()) {", "if doc.is_visible_to(&remote.into()) {")]},
+    {"id": "m25b", "prop": "C12", "expect": r"dom:is_authorized:not-blocked",
+     "edits": [(N + "worker.rs", "        if policy.is_block() {\n            return Err(UploadError::Unauthorized(remote, rid));\n        }\n", "")]},
+    {"id": "m25c", "prop": "C12", "expect": r"table:is_visible_to",
+     "edits": [(R + "identity/doc.rs", "Visibility::Private { allow } => allow.contains(did) || self.is_delegate(did),", "Visibility::Private { allow } => allow.contains(did) || self.is_delegate(did) || allow.is_empty(),")]},
+    {"id": "m25d", "prop": "C12", "expect": r"flow:same-repo|flow:is_authorized",
+     "edits": [(N + "worker.rs", "let repo = self.storage.repository(rid)?;\n        let doc = repo.identity_doc()?;\n\n        if !doc", "let repo = self.storage.repository(rid)?;\n        let doc = repo.identity_doc()?;\n        let remote = self.nid;\n        if !doc")]},
+    # ---- C28
+    {"id": "m37a", "prop": "C28", "expect": r"clean:local|floor:clean:guards",
+     "edits": [(R + "storage/git.rs", "if *local == id || delegates.contains(&id) {", "if delegates.contains(&id) {")]},
+    {"id": "m37b", "prop": "C28", "expect": r"dom:Storage::clean:remove",
+     "edits": [(R + "storage/git.rs", "        if has_sigrefs {\n            repo.clean(&self.info.key)", "        if !has_sigrefs {\n            repo.clean(&self.info.key)")]},
+    {"id": "m37c", "prop": "C28", "expect": r"clean:delegate",
+     "edits": [(R + "storage/git.rs", "if *local == id || delegates.contains(&id) {", "if *local == id || !delegates.contains(&id) {")]},
+    {"id": "m37d", "prop": "C28", "expect": r"flow:clean:delegates",
+     "edits": [(R + "storage/git.rs", "        let delegates = self\n            .delegates()?\n            .into_iter()\n            .map(|did| *did)\n            .collect::<BTreeSet<_>>();\n        let mut deleted = Vec::new();", "        let delegates = self\n            .delegates()?\n            .into_iter()\n            .map(|did| *did)\n            .take(1)\n            .collect::<BTreeSet<_>>();\n        let mut deleted = Vec::new();")]},
 ]
